@@ -307,8 +307,8 @@ def tprob(a):
 
 def b_eigenspectrum(a):
     T = wrap(tprob(a), a["container"])
-    left = a["seed"] % 5 != 0                 # one call in five asks for the right eigenvectors
-    if a["container"] == "dense" and a["seed"] % 3 == 0:
+    left = a["seed"] % 2 == 0                 # every second call asks for the right eigenvectors
+    if a["container"] == "dense" and a["seed"] % 3 != 0:
         T = np.asfortranarray(T)              # e.g. the transpose view of a row-major matrix
     return (lambda: tm.eigenspectrum(T, n_eigs=a["n_eigs"], left=left)), [T]
 
